@@ -415,6 +415,10 @@ async fn run_inner(sc: &C16Scenario) -> u64 {
             RegClear,
             RegRemove(usize, usize),
             ServerClose(usize),
+            /// the server hangs up on a checked-out client; its holder gives it
+            /// back and asks for a client again at once, before the runtime has
+            /// had more than a few turns
+            CloseAndRetry(usize),
             ServerFail(usize),
             RetainNone,
             Resize(usize),
@@ -439,6 +443,9 @@ async fn run_inner(sc: &C16Scenario) -> u64 {
                 ops.push(Op::PrepareRoutes(j));
             }
             ops.push(Op::Take(j));
+            if j == 0 {
+                ops.push(Op::CloseAndRetry(j));
+            }
             ops.push(Op::CacheClear(j));
             ops.push(Op::CacheRemove(j, 0, 1));
         }
@@ -785,6 +792,57 @@ async fn run_inner(sc: &C16Scenario) -> u64 {
                 if let Some(r) = refs.get_mut(&i) {
                     if !r.left_pool {
                         r.doomed = true;
+                    }
+                }
+            }
+            Op::CloseAndRetry(j) => {
+                let (o, id) = held.remove(j);
+                let n = w(|w| {
+                    w.conns[id].close = true;
+                    w.conns[id].notify.clone()
+                });
+                n.notify_one();
+                // the holder runs as a task of its own: either it has a request in
+                // flight when the connection dies (it is then woken by the dying
+                // connection itself and retries in that very turn), or it is idle
+                // and notices 1-3 runtime turns later
+                let in_flight = choose_free(2) == 1;
+                let turns = if in_flight { 0 } else { 1 + choose_free(3) };
+                let sig = w(|w| significant(&w.conns[id].log).len());
+                refs.get_mut(&id).unwrap().mark = sig;
+                let p2 = pool.clone();
+                let holder = tokio::spawn(async move {
+                    if in_flight {
+                        let _ = o.simple_query("SELECT 'in flight'").await;
+                    } else {
+                        for _ in 0..turns {
+                            tokio::task::yield_now().await;
+                        }
+                    }
+                    drop(o);
+                    match p2.timeout_get(&nb).await {
+                        // what the client itself already knows the pool must know too
+                        Ok(o2) => PgClient::is_closed(&o2),
+                        // (no slot after a shrink, a failing replacement: not judged here)
+                        Err(_) => false,
+                    }
+                });
+                if let Ok(true) = holder.await {
+                    bad("closed-client-handed-out", format!("connection {} was closed by the server; its holder (request in flight: {}, {} turns later) asked again and get() handed out a client that reports is_closed()", id, in_flight, turns));
+                }
+                settle().await;
+                if let Some(r) = refs.get_mut(&id) {
+                    if !r.left_pool {
+                        r.doomed = true;
+                    }
+                }
+                // whatever came back is idle again: its traffic mark is taken afresh
+                let marks: Vec<(usize, usize)> = w(|w| w.conns.iter().enumerate().map(|(i, c)| (i, significant(&c.log).len())).collect());
+                for (i, m) in marks {
+                    if let Some(r) = refs.get_mut(&i) {
+                        if !held.iter().any(|h| h.1 == i) {
+                            r.mark = m;
+                        }
                     }
                 }
             }
